@@ -169,6 +169,7 @@ def make_strategy():
 
 def to_case(v):
     toks, lseed, cseed = v
+    cseed = family.cfg_seed(cseed)
     rng = random.Random(lseed)
     src, r = layout.render(toks, rng, 'C', dict(p_cmt=0.3, p_cont=0.8, blank=2))
     crng = random.Random(cseed)
@@ -180,6 +181,7 @@ def to_case(v):
 def main(ctx):
     quick = ctx.tier == 'quick'
     _EX.update(family.exclusions(ctx))
+    family.set_tier(ctx)
     ctx.rule = ('case = (input normalised to LF, language, config without `newlines`); 10-11 executions per case (4 settings x 4 encodings of the '
                 'input as listed in the docstring); non-trivial = the input has a line break inside a block comment or a continuation, or the '
                 'output differs from the input; distinct by sha256')
@@ -188,7 +190,7 @@ def main(ctx):
     core.replay_regress(ctx, replay)
     cases = []
     ncfg = 1 if quick else 8
-    cfgs = [{}] + family.random_cfgs(core.subseed(ctx.seed, 'a'), ncfg, ('WS',), (0.02, 0.05), _EX, ctx.counts)
+    cfgs = [{}] + family.random_cfgs(core.subseed(ctx.useed, 'a'), ncfg, ('WS',), (0.02, 0.05), _EX, ctx.counts)
     # the comment writers have their own terminator handling: exercise the non-default one as well (statement: "arbitrary other options")
     cfgs.append({'cmt_indent_multi': 'false'})
     if not quick:
